@@ -429,7 +429,15 @@ func RunOne(t *testing.T, sc *Scenario, tr *vh.Tracer, base string) bool {
 			}
 		case "tag":
 			td := tagdesc[op.N]
-			if op.Av != 0 {
+			if op.Av == 7 {
+				// the descriptor a caller got from Resolve on a reopened layout: it names another reference in its
+				// reference-name annotation. That annotation is the caller's; it must not come back as a tag.
+				td = r.desc[op.N]
+				td.Annotations = map[string]string{ocispec.AnnotationRefName: refs[(len(op.Ref)+op.N)%len(refs)]}
+				for k, v := range r.desc[op.N].Annotations {
+					td.Annotations[k] = v
+				}
+			} else if op.Av != 0 {
 				// the same content described with other annotations: Resolve must answer with the latest descriptor
 				td = r.desc[op.N]
 				ann := map[string]string{"verif.variant": fmt.Sprint("v", op.Av)}
@@ -439,7 +447,7 @@ func RunOne(t *testing.T, sc *Scenario, tr *vh.Tracer, base string) bool {
 				td.Annotations = ann
 			}
 			m["res"] = cls(st.Tag(ctx, td, op.Ref))
-			m["ann"] = annSig(td.Annotations)
+			m["ann"], m["rn"] = annSig(td.Annotations), td.Annotations[ocispec.AnnotationRefName]
 		case "untag":
 			m["res"] = cls(ost.Untag(ctx, op.Ref))
 		case "delete":
@@ -658,7 +666,7 @@ func genScenario(rng *rand.Rand, kind string) Scenario {
 		case x < 14:
 			sc.Ops = append(sc.Ops, Op{Op: "push", N: node()})
 		case x < 34:
-			sc.Ops = append(sc.Ops, Op{Op: "tag", N: node(), Ref: ref(), Av: []int{0, 0, 1, 2}[rng.Intn(4)]})
+			sc.Ops = append(sc.Ops, Op{Op: "tag", N: node(), Ref: ref(), Av: []int{0, 0, 1, 2, 7}[rng.Intn(5)]})
 		case x < 42:
 			sc.Ops = append(sc.Ops, Op{Op: "resolve", Ref: append(refs, "", "missing")[rng.Intn(len(refs)+2)]})
 		case x < 48:
